@@ -1041,6 +1041,20 @@ func streamGroup(g *G) { // C13
 			ps := g.pick([]string{"%-", "version=old", "ver=9,id=7", "version=2", "sub=x"})
 			g.emit("match %s GET %s %s %s %s %s", g.matcherExpr(3, hostIDs), encB(p), encB(g.pick(hostNames)), encKVs(h), accept, ps)
 		}
+		// a matcher parameter that has the name of a route parameter on a branch the router tries and abandons
+		if g.chance(0.5) {
+			cg, cr := 500000+gid, 500000+rid
+			key := g.pick([]string{"id", "name", "ver"})
+			g.emit("group %d 0 0 %%_ %%- 0 %%- %%- %%- 0 0", cg)
+			g.emit("group-new %d %d %s %s", cg, cr, encB("col"), g.pick([]string{"pv:" + key + ":v1", "and(pv:" + key + ":v1;any)", "or(hv:" + key + ":version:9;pv:" + key + ":v1)"}))
+			for i, p := range []string{"/u/{id}/a", "/u/{id}/c", "/u/{name}/b", "/w/{ver:\\d+}x", "/w/{other}"} {
+				g.emit("handle %d %s %d %%- %s", cr, encB(p), i+1, encL([]string{"GET"}))
+			}
+			for _, p := range []string{"/v1/u/5/b", "/v1/u/5/z", "/v1/u/5/a", "/v1/w/7y", "/v1/w/7x", "/v1/none", "/v2/u/5/b"} {
+				g.serveLine("gserve", cg, g.pick([]string{"GET", "POST", "OPTIONS"}), p, "", nil)
+			}
+			rid++
+		}
 		g.emit("group-remove %d %s", gid, encB(g.pick(names)))
 		g.emit("group-names %d", gid)
 		g.emit("group-routes %d", gid)
